@@ -102,6 +102,9 @@ VH_MAIN
         isz = (long)(2 * w + 5 + NO_MARKER) * n * sizeof(int_t);
         dsz = (long)(n * w + SUPERLU_MAX(2 * n, (vh_maxsup + vh_rowblk) * w)) * sizeof(double);
         r = pdgstrf_WorkInit(n, w, &iw, &dw);
+#ifdef WITNESS
+        vh_assume(r == 0 && ((unsigned long)(buf + base + t2 - isz - dsz) & 7) != 0);   /* the witness must be a successful, misaligned request */
+#endif
         if (r == 0) {
             vh_assert(inside(iw, isz) && inside(dw, dsz), "work arrays inside the caller's buffer");
             vh_assert(off(iw) + isz <= t2 && off(dw) + dsz <= off(iw), "work arrays taken from the free part, not overlapping each other");
